@@ -56,27 +56,27 @@ VEC_MUTATORS = {'pop', 'remove', 'swap_remove', 'truncate', 'clear', 'retain', '
                 'rotate_left', 'rotate_right'}
 
 
-def bridge_pipeline_loop(core, cg, STOP, first):
+def bridge_pipeline_loop(core, cg, STOP, first, need_both=True):
     """loop form of the pipeline: a fresh Vec, and inside `for e in effects` exactly one push(register(e)) on every iteration"""
     from rules.common import deep_origins
     from rules.props import c01
     h = first[0][0]
     if any(x is not h for x, _ in first):
-        return False, 'loop form: the batch is created in several functions'
+        return False, 'loop form: the batch is created in several functions', set()
     pushes = [(bb, t) for bb, t in h.calls('alloc::vec::Vec::push') if 'bridge::Request<' in ' '.join(t.get('targs') or [])]
     others = [last_seg(t['callee']) for bb, t in h.calls() if 'alloc::vec::Vec' in norm(t.get('callee') or '') and 'bridge::Request<' in ' '.join(t.get('targs') or [])
               and last_seg(t['callee']) in VEC_MUTATORS]
     if len(pushes) != 1 or others:
-        return False, 'loop form: expected exactly one push into the batch and no other mutation (pushes %d, other %s)' % (len(pushes), others)
+        return False, 'loop form: expected exactly one push into the batch and no other mutation (pushes %d, other %s)' % (len(pushes), others), set()
     pb, pt = pushes[0]
     regs = [o for o in origins(h, pt['args'][1])]
     if not regs or not all(o.kind == 'call' and call_matches(o.term, ['crux_core::bridge::registry::ResolveRegistry::register']) for o in regs) or len(set(o.bb for o in regs)) != 1:
-        return False, 'loop form: what is pushed is not the result of one register(..) call'
+        return False, 'loop form: what is pushed is not the result of one register(..) call', set()
     rb = regs[0].bb
     items = origins(h, regs[0].term['args'][1])
     if not items or not all(o.kind == 'call' and last_seg(o.term.get('callee') or '') == 'next' and o.suffix == ['as Some', '.0'] for o in items) or \
             len(set(o.bb for o in items)) != 1:
-        return False, 'loop form: the registered value is not the item of a next() call'
+        return False, 'loop form: the registered value is not the item of a next() call', set()
     nb = items[0].bb
     nt = h.blocks[nb]['t']
     none_edges = c01.none_edges_of(h, nb, nt)
@@ -92,8 +92,11 @@ def bridge_pipeline_loop(core, cg, STOP, first):
         else:
             roots.append((h, o))
     from_core = bool(roots) and all(o.kind == 'call' and call_matches(o.term, STOP) and [tok for tok in o.suffix if tok not in ('as Ok', '.0', 'as Continue')] == []
-                                    for _, o in roots) and len(set(last_seg(o.term['callee']) for _, o in roots)) == 2
-    return (every and from_core), 'loop form; effects come from both core entry points: %s; every item is registered once and pushed: %s' % (from_core, every)
+                                    for _, o in roots)
+    ents = set(last_seg(o.term['callee']) for _, o in roots if o.kind == 'call')
+    if need_both:
+        from_core = from_core and len(ents) == 2
+    return (every and from_core), 'loop form; effects come from the core entry points: %s; every item is registered once and pushed: %s' % (from_core, every), ents
 
 
 def bridge_pipeline(core):
@@ -109,13 +112,31 @@ def bridge_pipeline(core):
         for bb, t in f.calls('erased_serde::ser::Serialize::erased_serialize'):
             if 'bridge::Request<' in (t['args'][0].get('t') or ''):
                 sers.append((f, bb, t))
-    if len(sers) != 1:
-        return False, 'expected one serialisation of the request batch, found %d' % len(sers)
-    f, bb, t = sers[0]
+    if not sers:
+        return False, 'no serialisation of the request batch found'
+    if len(sers) > 1:
+        # several entry points may each serialise their own batch (the shared dispatcher inlined by hand): every one of them must be a
+        # pipeline over a core run, and together they must cover both core entry points
+        entries = set()
+        details = []
+        for site in sers:
+            ok_, detail_, ents_ = _pipeline_at(core, cg, STOP, site, need_both=False)
+            details.append(detail_)
+            if not ok_:
+                return False, detail_
+            entries |= ents_
+        return (entries == {'process_event', 'process'}), '%d serialisation sites, entry points %s; %s' % (len(sers), sorted(entries), details[0])
+    ok_, detail_, _ = _pipeline_at(core, cg, STOP, sers[0], need_both=True)
+    return ok_, detail_
+
+
+def _pipeline_at(core, cg, STOP, site, need_both=True):
+    from rules.common import deep_origins
+    f, bb, t = site
     first = deep_origins(cg, f, t['args'][0], stop_calls=STOP)
     if first and all(o.kind == 'call' and last_seg(o.term.get('callee') or '') in ('new', 'with_capacity') and 'alloc::vec::Vec' in norm(o.term.get('callee') or '')
                      for h, o in first):
-        return bridge_pipeline_loop(core, cg, STOP, first)
+        return bridge_pipeline_loop(core, cg, STOP, first, need_both)
     cur = [(f, t['args'][0])]
     chain = []
     clo = None
@@ -124,7 +145,7 @@ def bridge_pipeline(core):
         for g, op in cur:
             for h, o in deep_origins(cg, g, op, stop_calls=STOP):
                 if o.kind != 'call' or last_seg(o.term.get('callee') or '') != want:
-                    return False, 'chain %s then %s' % (chain, (o.kind, last_seg(o.term.get('callee') or '') if o.kind == 'call' else ''))
+                    return False, 'chain %s then %s' % (chain, (o.kind, last_seg(o.term.get('callee') or '') if o.kind == 'call' else '')), set()
                 if want == 'map':
                     for x in origins(h, o.term['args'][1]):
                         if x.kind == 'agg' and x.stmt['rv'].get('ak') == 'closure':
@@ -136,16 +157,18 @@ def bridge_pipeline(core):
     for g, op in cur:
         roots += deep_origins(cg, g, op, stop_calls=STOP)
     from_core = bool(roots) and all(o.kind == 'call' and call_matches(o.term, ['crux_core::core::Core::process_event', 'crux_core::core::Core::process'])
-                                    and [tok for tok in o.suffix if tok not in ('as Ok', '.0', 'as Continue')] == [] for h, o in roots) and \
-        len(set(last_seg(o.term['callee']) for h, o in roots)) == 2
+                                    and [tok for tok in o.suffix if tok not in ('as Ok', '.0', 'as Continue')] == [] for h, o in roots)
+    ents = set(last_seg(o.term['callee']) for h, o in roots if o.kind == 'call')
+    if need_both:
+        from_core = from_core and len(ents) == 2
     one_register = False
     if clo is not None:
         regs = [(b2, t2) for b2, t2 in clo.calls('crux_core::bridge::registry::ResolveRegistry::register')]
         one_register = len(regs) == 1 and not clo.in_cycle(regs[0][0]) and \
             all(o.kind == 'arg' and o.n == 2 for o in origins(clo, regs[0][1]['args'][1])) and \
             all(o.kind == 'call' and o.bb == regs[0][0] for o in origins(clo, {'l': 0, 'p': []}))
-    return (from_core and one_register), 'chain %s; effects come from both core entry points: %s; closure registers its argument once and returns the request: %s' % (
-        chain, from_core, one_register)
+    return (from_core and one_register), 'chain %s; effects come from the core entry points: %s; closure registers its argument once and returns the request: %s' % (
+        chain, from_core, one_register), ents
 
 
 # Slab operations that never change the key of an existing entry
